@@ -27,6 +27,13 @@ type rsCase struct {
 	Pre    []whWrite   `json:"pre"`    // endpoint healthy
 	Phases [][]whWrite `json:"phases"` // during the outage; a restart between consecutive phases
 	Post   []whWrite   `json:"post"`   // after recovery
+	// Quiet: nothing at all is written for this hook after the last restart
+	// (last phase and Post are ignored, no closing writes): the backlog that
+	// was queued before the restart must arrive on its own once the endpoint
+	// is healthy. RecoverEarly: the endpoint becomes healthy while the server
+	// is down (otherwise shortly after it is back).
+	Quiet        bool `json:"quiet,omitempty"`
+	RecoverEarly bool `json:"recover_early,omitempty"`
 }
 
 func drawWrites(rt *rapid.T, label string, min, max int) []whWrite {
@@ -64,6 +71,10 @@ func drawRSCase(rt *rapid.T) rsCase {
 		p.Phases = append(p.Phases, drawWrites(rt, fmt.Sprintf("ph%d", i), 0, 3))
 	}
 	p.Post = drawWrites(rt, "post", 0, 3)
+	if rapid.IntRange(0, 2).Draw(rt, "quiet") == 0 {
+		p.Quiet = true
+		p.RecoverEarly = rapid.Bool().Draw(rt, "recoverearly")
+	}
 	return p
 }
 
@@ -247,9 +258,13 @@ func runRestart(p rsCase) *outcome {
 	ep.mu.Unlock()
 	o.label("outage:" + p.Down)
 	queuedAtStop := 0
+	arrAtStop := 0
 	laterNotified := false
 	for ph, ws := range p.Phases {
 		before := tw.count.Load()
+		if p.Quiet && ph == len(p.Phases)-1 {
+			break // nothing is written after the last restart
+		}
 		if err := write(ws, fmt.Sprintf("zz%d", ph)); err != nil {
 			return harness("write", err)
 		}
@@ -311,6 +326,12 @@ func runRestart(p rsCase) *outcome {
 		case <-tw.stopped:
 		case <-time.After(10 * time.Second):
 		}
+		ep.mu.Lock()
+		arrAtStop = len(ep.arrivals)
+		if p.Quiet && p.RecoverEarly && ph == len(p.Phases)-2 {
+			ep.force = "" // the endpoint recovers while the server is down
+		}
+		ep.mu.Unlock()
 		queuedAtStop += expected
 		o.label("restart:" + kind)
 		o.count("notifications-queued-across-a-restart", expected)
@@ -323,13 +344,13 @@ func runRestart(p rsCase) *outcome {
 		}
 		// the queue survived: the new process reports the same backlog (the
 		// sender's attempts take entries out for a moment, so poll)
-		want := int(tw.count.Load()) - okCount()
-		var pending int
+		var pending, want int
 		okq := false
 		for i := 0; i < 150 && !okq; i++ {
 			if pending, _, err = serverPending(ctl); err != nil {
 				return harness("SERVER", err)
 			}
+			want = int(tw.count.Load()) - okCount()
 			if okq = pending == want; !okq {
 				time.Sleep(20 * time.Millisecond)
 			}
@@ -348,7 +369,30 @@ func runRestart(p rsCase) *outcome {
 	ep.mu.Lock()
 	ep.force = ""
 	ep.mu.Unlock()
-	if err := write(p.Post, "zzend"); err != nil {
+	if p.Quiet {
+		// No event for this hook after the restart: the queued notifications
+		// have to be sent by the re-created hook on its own. The sender
+		// retries twice per second, so a healthy endpoint sees the backlog
+		// within about a second; wait much longer than that, but well inside
+		// the 30 s retention.
+		o.label("quiet-after-restart")
+		want := int(tw.count.Load())
+		ep.mu.Lock()
+		arrived := waitCond(ep.cond, time.Now().Add(12*time.Second), func() bool { return len(ep.ok) >= want })
+		got, attempts := len(ep.ok), len(ep.arrivals)-arrAtStop
+		ep.mu.Unlock()
+		if !arrived {
+			pending, _, perr := serverPending(ctl)
+			what := fmt.Sprintf("the endpoint has been healthy for 12 s after the %s restart, %d of %d notifications were answered 200, the sender made %d attempts since the restart, SERVER reports %d pending events (%v); retention is 30 s, the oldest notification is %v old",
+				p.Stops[len(p.Stops)-1], got, want, attempts, pending, perr, time.Duration(now()-t0).Round(time.Second))
+			if stalled() || perr != nil || time.Duration(now()-t0) > 22*time.Second {
+				o.inconclusive = "quiet restart: " + what
+			} else {
+				o.fail("webhook-lost", "no further event for the hook after the restart: %s", what)
+			}
+			return o
+		}
+	} else if err := write(p.Post, "zzend"); err != nil {
 		return harness("write", err)
 	}
 	if v, err := ctl.Do("PUBLISH", twin, "END"); err != nil || v.Kind != ':' || v.Int != 1 {
@@ -357,7 +401,7 @@ func runRestart(p rsCase) *outcome {
 	r := &whRun{o: o, p: whCase{NKeys: 1, Hooks: []whHook{{Fence: p.Fence, Meta: p.Meta}}}, eps: []*endpoint{ep}, twins: []*twinReader{tw}, t0: t0}
 	r.verify()
 	o.ntKey = ""
-	if o.key == "" && o.inconclusive == "" && queuedAtStop > 0 && laterNotified {
+	if o.key == "" && o.inconclusive == "" && queuedAtStop > 0 && (laterNotified || p.Quiet) {
 		bucket := "1"
 		if queuedAtStop > 1 {
 			bucket = "2-4"
@@ -365,7 +409,7 @@ func runRestart(p rsCase) *outcome {
 		if queuedAtStop > 4 {
 			bucket = ">4"
 		}
-		o.ntKey = fmt.Sprintf("%s/%s/%s/%s/%v/queued=%s/phases=%v", p.Down, strings.Join(p.Stops, "+"), p.Fence.Cmd, strings.Join(p.Fence.Detect, "+"), p.Meta, bucket, phaseSizes(p))
+		o.ntKey = fmt.Sprintf("%s/%s/%s/%s/%v/queued=%s/phases=%v/quiet=%v/%v", p.Down, strings.Join(p.Stops, "+"), p.Fence.Cmd, strings.Join(p.Fence.Detect, "+"), p.Meta, bucket, phaseSizes(p), p.Quiet, p.RecoverEarly)
 	}
 	return o
 }
